@@ -79,7 +79,14 @@ def r13(run, tree):
     iof.check_units_library(run, tree)
 
 
-RULES = [r_shared_c01_r12, r1, r2, r3, r4, r5, r6, r7, r8, r9, r11, r13]
+def r_memo(run, tree):
+    run.rule("C01.R14", "no memoised function on the loading path reads the environment (directory listings, files, clock): which output is the last one, and what a file holds, is looked up at every load",
+             "effect rule over the resolved call graph (functools.lru_cache / cache) with a positive fixture", "", floor=1)
+    from .memo_rules import check_memoised_functions
+    check_memoised_functions(run, tree, modules=("io/", "config/", "units/", "core/dataset"))
+
+
+RULES = [r_shared_c01_r12, r1, r2, r3, r4, r5, r6, r7, r8, r9, r11, r13, r_memo]
 
 
 def t_all_selections(run, tree):
